@@ -557,7 +557,7 @@ func ddCoq1(d *unmarshaler.DecodedData, targets []reflect.Type) string {
 	if d.Message == "" {
 		unk = maskAddrs(fmt.Sprintf("<unknown: %+v>", d))
 	}
-	return fmt.Sprintf("(DD %s %s %s %s %s %s %s)", cStr(d.Message), cStr(string(d.Kind)), cStr(d.Type),
+	return fmt.Sprintf("(DD %s %s %s %s %s %s %s)", cStr(maskAddrs(d.Message)), cStr(string(d.Kind)), cStr(d.Type),
 		cList(fs), coqFrameList(d.Stack), cList(cs), cStr(unk))
 }
 
@@ -631,12 +631,12 @@ func (w *umWorld) defIndex(e error) int {
 }
 
 func (w *umWorld) anyKeyID(fk errdef.FieldKey) (int, bool) {
-	for _, k := range keyPool {
+	for _, k := range builtinKeys { // first: two built-in keys also sit in keyPool (for C09)
 		if k.Key == fk {
 			return k.ID, true
 		}
 	}
-	for _, k := range builtinKeys {
+	for _, k := range keyPool {
 		if k.Key == fk {
 			return k.ID, true
 		}
@@ -682,7 +682,11 @@ func (w *umWorld) orerrCoq(e unmarshaler.UnmarshaledError) string {
 	for _, c := range e.Unwrap() {
 		cs = append(cs, w.ocauseCoq(c))
 	}
-	return fmt.Sprintf("(ORErr %s %s %s %s %s %s %s)", cNat(w.defIndex(e)), cStr(e.Error()), cList(ts), cList(unknown),
+	emsg := e.Error()
+	if !w.raw {
+		emsg = maskAddrs(emsg)
+	}
+	return fmt.Sprintf("(ORErr %s %s %s %s %s %s %s)", cNat(w.defIndex(e)), cStr(emsg), cList(ts), cList(unknown),
 		cList(all), coqFrameList(e.Stack().Frames()), cList(cs))
 }
 
